@@ -62,6 +62,8 @@ pub enum CKind {
     VFluctTight,
     /// fluctuation limit switched off
     VFluctOff,
+    /// engine liquidation fee ratio set to 0 (0) or to a small odd value (1)
+    LfSet(u64),
     /// undo of a re-wiring
     Unwire(u64),
     VRatios,
@@ -604,8 +606,16 @@ fn start_campaign(w: &World, r: &mut Rng, g: &mut GenCtx, vis: &[VInfo], ps: &[P
             (v.idx, victim)
         }
     };
+    // variant (one in four): the oracle is aligned BEFORE the push and then left alone, so that at liquidation time the
+    // market is far away from the oracle and the oracle-priced ratio (funding since the checkpoint included) decides
+    let oracle_stays = r.chance(1, 4);
+    if oracle_stays {
+        g.plan.push_back(Plan::AlignOracle { vi });
+    }
     g.plan.push_back(Plan::Push { vi, victim, target_bp: target, steps_left: 6 });
-    g.plan.push_back(Plan::AlignOracle { vi });
+    if !oracle_stays {
+        g.plan.push_back(Plan::AlignOracle { vi });
+    }
     if target < 0 && r.chance(1, 2) {
         // instead of being liquidated the victim tops the margin up to an equity of exactly -1 / 0 / +1 and closes
         let k = *r.pick(&[0u64, 1, 1, 2]);
@@ -616,6 +626,17 @@ fn start_campaign(w: &World, r: &mut Rng, g: &mut GenCtx, vis: &[VInfo], ps: &[P
         // an under-water position reversed by its owner (the reversal settles the shortfall with the trader; with fees
         // larger than the shortfall the native bookkeeping of the required coins nets the two)
         g.plan.push_back(Plan::TraderOp { vi, who: Who::Id(victim), op: TOp::Reverse, block: Blk::Next });
+    }
+    let plr_now = w.engine_config().map(|c| c.partial_liquidation_ratio.u128()).unwrap_or(0);
+    if plr_now != 0 && target > 0 && r.chance(1, 3) {
+        // a partial liquidation whose fee is zero (fee ratio 0), then — fee ratio restored — a second liquidation of the
+        // remainder by whoever comes next: nothing of the first may linger
+        g.plan.push_back(Plan::Config { vi, kind: CKind::LfSet(0), legit: true, trader: victim });
+        g.plan.push_back(Plan::Liq { vi, victim, first: false });
+        g.plan.push_back(Plan::Config { vi, kind: CKind::LfSet(1), legit: true, trader: victim });
+        g.plan.push_back(Plan::LiqBy { vi, by: STRANGER, block: Blk::Free });
+        g.plan.push_back(Plan::LiqBy { vi, by: LIQUIDATOR, block: Blk::Free });
+        return true;
     }
     g.plan.push_back(Plan::Liq { vi, victim, first: true });
     true
@@ -1149,6 +1170,7 @@ fn config_msg(w: &World, r: &mut Rng, v: &VInfo, kind: CKind, legit: bool, trade
             }
             draft(own, m)
         }
+        CKind::LfSet(k) => draft(eowner, ecfg(None, None, None, Some(if k == 0 { 0 } else { d / 40 + 1 }))),
         CKind::VFluctOff => {
             let own = w.vamm_owner(&v.addr);
             let mut m = vcfg0(v.id);
@@ -1333,8 +1355,10 @@ fn start_config(w: &World, r: &mut Rng, g: &mut GenCtx, vis: &[VInfo], ps: &[Pos
         // a position closed by an equal-size reversal leaves a stored record of size zero; the next order on
         // the other side is an OPEN and must honour the caller's base limit
         g.plan.push_back(Plan::TraderOp { vi, who: Who::Id(trader), op: TOp::FlatReverse, block: Blk::Next });
-        g.plan.push_back(Plan::TraderOp { vi, who: Who::Id(trader), op: TOp::AfterFlat(0), block: Blk::Next });
-        g.plan.push_back(Plan::TraderOp { vi, who: Who::Id(trader), op: TOp::AfterFlat(1), block: Blk::Free });
+        // the order on the other side in the SAME block as the flattening trade, or in the next one
+        let blk = if (w.cfg.h + w.cfg.seed) % 2 == 0 { Blk::Same } else { Blk::Next };
+        g.plan.push_back(Plan::TraderOp { vi, who: Who::Id(trader), op: TOp::AfterFlat(0), block: blk });
+        g.plan.push_back(Plan::TraderOp { vi, who: Who::Id(trader), op: TOp::AfterFlat(1), block: if blk == Blk::Same { Blk::Same } else { Blk::Free } });
     }
     let mut unwire: Vec<(u64, CKind)> = vec![]; // (due after this many further updates, kind)
     let _ = w;
@@ -1650,7 +1674,15 @@ fn gen_admin(w: &World, r: &mut Rng, vis: &[VInfo], mode: Mode) -> Draft {
             // engine config
             let mut m = (None, None, None, None, None, None, None);
             match r.below(10) {
-                0 => m.0 = Some(some_account(r)),
+                0 => {
+                    m.0 = Some(some_account(r));
+                    // an ownership transfer riding along with another (valid) field of the same message
+                    match (eowner as u128 + d + w.cfg.h as u128) % 3 {
+                        0 => {}
+                        1 => m.3 = ec.as_ref().map(|c| c.initial_margin_ratio.u128()),
+                        _ => m.6 = ec.as_ref().map(|c| c.liquidation_fee.u128()),
+                    }
+                }
                 1 => m.3 = Some(ratio(r)),
                 2 => m.4 = Some(ratio(r)),
                 3 => m.5 = Some(*r.pick(&[0, d / 4, d / 2, d, d + 1])),
@@ -1910,6 +1942,17 @@ pub fn gen_step(w: &World, r: &mut Rng, g: &mut GenCtx, k: u64, stats: &mut Stat
     let mut dr: Option<Draft> = None;
     for name in g.pending_stats.drain(..) {
         stats.count("campaign", &name);
+    }
+    // a record left at size zero in THIS block (a reversal that re-opened nothing): every other time its owner places the
+    // order on the other side at once, in the same block
+    if g.plan.is_empty() {
+        if let Some(p) = ps.iter().find(|p| p.size == 0 && p.block == b.height && TRADERS.contains(&p.t)) {
+            if let Some(v) = vis.iter().find(|v| v.id == p.v) {
+                if r.chance(1, 2) {
+                    g.plan.push_back(Plan::TraderOp { vi: v.idx, who: Who::Id(p.t), op: TOp::AfterFlat(1), block: Blk::Same });
+                }
+            }
+        }
     }
     // "charged exactly once": in an eighth of the histories (decided from (seed, h), no PRNG draw) a trader opens 3 % of the
     // pool, funding is settled once against a skewed oracle, the position is PARTIALLY closed (tight fluctuation limit, ratio
